@@ -339,7 +339,9 @@ def rule_unnormalised_exponent(ctx):
                                             changed = True
                 norm_only = set()
                 for st in walk:
-                    if isinstance(st, ast.If) and isinstance(st.test, ast.Name) and st.test.id == "normalized":
+                    if isinstance(st, ast.If) and any(isinstance(y, ast.Name) and y.id == "normalized" for y in ast.walk(st.test)) \
+                            and not any(isinstance(y, ast.UnaryOp) and isinstance(y.op, ast.Not) for y in ast.walk(st.test)) \
+                            and not any(isinstance(y, ast.Constant) and y.value in (False, None) for y in ast.walk(st.test)):
                         for x in st.body:
                             for y in ast.walk(x):
                                 if isinstance(y, ast.Return):
